@@ -329,3 +329,160 @@ impl SegLogSim {
 }
 
 pub use crate::rollback::verif::{delta_decode, delta_encode, rollback_read};
+
+// ------------------------------------------------------------------------------------------------
+// Trie-position addressing glue: `PageRegion` (the exclusive page ranges a worker owns), the shard
+// arithmetic of the page cache, and the layout of a merkle page (126 nodes, elided-children
+// bitfield, label).
+
+pub mod page_addr {
+    use crate::{
+        io::{PagePool, PAGE_SIZE},
+        merkle::ElidedChildren,
+        page_cache::{Page, PageMut},
+        page_region::PageRegion,
+        rw_pass_cell::RegionContains,
+    };
+    use nomt_core::page_id::{ChildPageIndex, PageId};
+
+    /// The real `PageRegion`.
+    #[derive(Clone, Debug)]
+    pub struct RegionSim(PageRegion);
+
+    impl RegionSim {
+        pub fn from_page_id(page_id: PageId) -> Self {
+            RegionSim(PageRegion::from_page_id(page_id))
+        }
+
+        pub fn from_page_id_descendants(
+            page_id: PageId,
+            min: ChildPageIndex,
+            max: ChildPageIndex,
+        ) -> Self {
+            RegionSim(PageRegion::from_page_id_descendants(page_id, min, max))
+        }
+
+        pub fn universe() -> Self {
+            RegionSim(PageRegion::universe())
+        }
+
+        pub fn exclusive_min(&self) -> PageId {
+            self.0.exclusive_min()
+        }
+
+        pub fn exclusive_max(&self) -> PageId {
+            self.0.exclusive_max()
+        }
+
+        pub fn contains_exclusive(&self, page: &PageId) -> bool {
+            self.0.contains_exclusive(page)
+        }
+
+        pub fn contains_non_exclusive(&self, page: &PageId) -> bool {
+            self.0.contains_non_exclusive(page)
+        }
+
+        /// `RegionContains::contains`.
+        pub fn contains(&self, page: &PageId) -> bool {
+            <PageRegion as RegionContains<PageId>>::contains(&self.0, page)
+        }
+
+        pub fn encompasses(&self, other: &RegionSim) -> bool {
+            self.0.encompasses(&other.0)
+        }
+
+        pub fn excludes_unique(&self, other: &RegionSim) -> bool {
+            self.0.excludes_unique(&other.0)
+        }
+    }
+
+    /// `page_cache::shard_regions`: the region and the number of root children of every shard.
+    pub fn shard_regions(num_shards: usize) -> Vec<(RegionSim, usize)> {
+        crate::page_cache::verif::shard_regions(num_shards)
+            .into_iter()
+            .map(|(r, c)| (RegionSim(r), c))
+            .collect()
+    }
+
+    /// `page_cache::shard_index_for`.
+    pub fn shard_index_for(num_shards: usize, first_ancestor: usize) -> usize {
+        crate::page_cache::verif::shard_index_for(num_shards, first_ancestor)
+    }
+
+    /// A real `PageMut` over caller-supplied bytes.
+    pub struct PageSim {
+        page: Option<PageMut>,
+        _pool: PagePool,
+    }
+
+    impl PageSim {
+        /// `PageMut::pristine_with_data` on a copy of `bytes` (must be one page long).
+        pub fn from_bytes(bytes: &[u8]) -> Self {
+            assert_eq!(bytes.len(), PAGE_SIZE);
+            let pool = PagePool::new();
+            let mut fat = pool.alloc_fat_page();
+            fat[..].copy_from_slice(bytes);
+            PageSim {
+                page: Some(PageMut::pristine_with_data(fat)),
+                _pool: pool,
+            }
+        }
+
+        /// `PageMut::pristine_empty`.
+        pub fn pristine_empty(page_id: &PageId) -> Self {
+            let pool = PagePool::new();
+            let page = PageMut::pristine_empty(&pool, page_id);
+            PageSim {
+                page: Some(page),
+                _pool: pool,
+            }
+        }
+
+        pub fn node(&self, index: usize) -> [u8; 32] {
+            self.page.as_ref().unwrap().node(index)
+        }
+
+        pub fn set_node(&mut self, index: usize, node: [u8; 32]) {
+            self.page.as_mut().unwrap().set_node(index, node)
+        }
+
+        pub fn elided_children(&self) -> u64 {
+            u64::from_le_bytes(self.page.as_ref().unwrap().elided_children().to_bytes())
+        }
+
+        pub fn set_elided_children(&mut self, elided: u64) {
+            let e = ElidedChildren::from_bytes(elided.to_le_bytes());
+            self.page.as_mut().unwrap().set_elided_children(&e)
+        }
+
+        /// The page's bytes, read through the frozen handle; also returns what `Page::node` and
+        /// `Page::elided_children` answer for `index` on the frozen page.
+        pub fn freeze_and_read(&mut self, index: usize) -> (Vec<u8>, [u8; 32], u64) {
+            let frozen: Page = self.page.take().unwrap().freeze();
+            let bytes = frozen.page_data()[..].to_vec();
+            let node = frozen.node(index);
+            let elided = u64::from_le_bytes(frozen.elided_children().to_bytes());
+            self.page = Some(frozen.deep_copy());
+            (bytes, node, elided)
+        }
+
+        pub fn bytes(&mut self) -> Vec<u8> {
+            let frozen: Page = self.page.take().unwrap().freeze();
+            let bytes = frozen.page_data()[..].to_vec();
+            self.page = Some(frozen.deep_copy());
+            bytes
+        }
+    }
+
+    /// `ElidedChildren::set_elide` on a raw bitfield.
+    pub fn elided_set(bits: u64, child: ChildPageIndex, elide: bool) -> u64 {
+        let mut e = ElidedChildren::from_bytes(bits.to_le_bytes());
+        e.set_elide(child, elide);
+        u64::from_le_bytes(e.to_bytes())
+    }
+
+    /// `ElidedChildren::is_elided` on a raw bitfield.
+    pub fn elided_get(bits: u64, child: ChildPageIndex) -> bool {
+        ElidedChildren::from_bytes(bits.to_le_bytes()).is_elided(child)
+    }
+}
